@@ -144,6 +144,14 @@ func (c *Ctx) MineBlock(n int64) bool {
 	return true
 }
 
+// Add counts n more cases inside a block this worker owns.
+func (c *Ctx) Add(n int64) {
+	c.States += n
+	if c.spaceCtr != nil {
+		*c.spaceCtr += n
+	}
+}
+
 // Index returns the number of cases (or blocks) walked so far.
 func (c *Ctx) Index() int64 { return c.idx }
 
